@@ -1,2 +1,360 @@
+"""R-TBL for the hash headers: constants compared with values recomputed from
+the standards' definitions in python (no repository code is executed)."""
+import math
+from rules import driver, core
+from rules.core import walk, key, const_val
+
+M32 = 0xffffffff
+M64 = 0xffffffffffffffff
+
+
+def primes(n):
+    ps = []
+    c = 2
+    while len(ps) < n:
+        if all(c % p for p in ps):
+            ps.append(c)
+        c += 1
+    return ps
+
+
+def iroot(n, k):
+    lo, hi = 0, 1
+    while hi ** k <= n:
+        hi *= 2
+    while lo < hi - 1:
+        mid = (lo + hi) // 2
+        if mid ** k <= n:
+            lo = mid
+        else:
+            hi = mid
+    return lo
+
+
+P80 = primes(80)
+MD5_T = [int(abs(math.sin(i + 1)) * 4294967296) & M32 for i in range(64)]
+MD5_S = [7, 12, 17, 22] * 4 + [5, 9, 14, 20] * 4 + [4, 11, 16, 23] * 4 + [6, 10, 15, 21] * 4
+MD5_X = [i for i in range(16)] + [(5 * i + 1) % 16 for i in range(16)] + \
+        [(3 * i + 5) % 16 for i in range(16)] + [(7 * i) % 16 for i in range(16)]
+MD5_IV = [0x67452301, 0xefcdab89, 0x98badcfe, 0x10325476]
+SHA1_IV = MD5_IV + [0xc3d2e1f0]
+SHA1_K = [iroot(x << 60, 2) & M32 for x in (2, 3, 5, 10)]
+SHA256_K = [iroot(p << 96, 3) & M32 for p in P80[:64]]
+SHA512_K = [iroot(p << 192, 3) & M64 for p in P80[:80]]
+SHA256_H0 = [iroot(p << 64, 2) & M32 for p in P80[:8]]
+SHA512_H0 = [iroot(p << 128, 2) & M64 for p in P80[:8]]
+SHA384_H0 = [iroot(p << 128, 2) & M64 for p in P80[8:16]]
+SHA224_H0 = [x & M32 for x in SHA384_H0]
+
+assert SHA1_K == [0x5a827999, 0x6ed9eba1, 0x8f1bbcdc, 0xca62c1d6]
+assert SHA256_K[0] == 0x428a2f98 and SHA512_K[79] == 0x6c44198c4a475817
+assert SHA224_H0[0] == 0xc1059ed8 and SHA256_H0[0] == 0x6a09e667
+
+
+def u(v, bits):
+    return int(v) & ((1 << bits) - 1)
+
+
+def ordered_ints(fn, pred):
+    """int literal nodes of fn satisfying pred(node, parents), in source order"""
+    out = []
+    seq = 0
+    for pos, root, n, parents in fn.nodes():
+        seq += 1
+        if n.get("k") == "int" and pred(n, parents + (root,) if root is not n else parents):
+            out.append((n["ln"], seq, int(n["v"])))
+    out.sort()
+    return [v for _, _, v in out]
+
+
+def cmp_list(rep, fn, inst, desc, got, want, fmt=hex):
+    if got == want:
+        rep.proved("R-TBL", fn, inst, desc, "%d entries equal the reference" % len(want))
+        return True
+    diffs = []
+    if len(got) != len(want):
+        diffs.append("count %d != %d" % (len(got), len(want)))
+    for i, (a, b) in enumerate(zip(got, want)):
+        if a != b:
+            diffs.append("[%d] %s != %s" % (i, fmt(a), fmt(b)))
+            if len(diffs) > 4:
+                break
+    rep.violated("R-TBL", fn, inst, desc, "; ".join(diffs))
+    return False
+
+
+def hash_iv(rep, fn, want, bits, inst="IV"):
+    """assignments ctx->hash[i] = const in an init function"""
+    got = {}
+    for pos, root, n, parents in fn.nodes():
+        if n.get("k") == "bin" and n["op"] == "=":
+            lhs = core.strip_casts(n["x"])
+            if lhs.get("k") == "sub" and key(lhs["b"]).endswith("->hash"):
+                i, v = const_val(lhs["i"]), const_val(n["y"])
+                if i is not None and v is not None:
+                    got[i] = u(v, bits)
+    cmp_list(rep, fn, inst, "initial hash value equals the standard IV",
+             [got.get(i) for i in range(len(want))], want, lambda x: hex(x) if x is not None else "None")
+
+
+def md5(rep, unit):
+    ft = unit.fn("md5_transform")
+    fi = unit.fn("md5_init")
+    if ft is None or fi is None:
+        raise driver.AnalysisBroken("md5 anchors vanished")
+    rep.functions.update(["md5_transform", "md5_init"])
+    hash_iv(rep, fi, MD5_IV, 32)
+    step_macros = {"MD5_FF", "MD5_GG", "MD5_HH", "MD5_II"}
+
+    def in_step(n, parents):
+        for p in (n,) + tuple(reversed(parents)):
+            m = p.get("m")
+            if m:
+                return bool(step_macros & set(m))
+        return False
+    T = ordered_ints(ft, lambda n, ps: in_step(n, ps) and int(n["v"]) > 0xffff)
+    cmp_list(rep, ft, "T[64]", "MD5 additive constants T[i] = floor(2^32*|sin(i+1)|) in step order", [u(v, 32) for v in T], MD5_T)
+    # rotation amounts: left-shift counts inside the step macros
+    shl = []
+    seq = 0
+    for pos, root, n, parents in ft.nodes():
+        seq += 1
+        if n.get("k") == "bin" and n["op"] == "<<" and in_step(n, parents + (root,)):
+            c = const_val(n["y"])
+            shl.append((n["ln"], seq, c))
+    shl.sort()
+    cmp_list(rep, ft, "S[64]", "MD5 per-step left-rotation amounts", [c for _, _, c in shl], MD5_S, str)
+    xs = []
+    seq = 0
+    for pos, root, n, parents in ft.nodes():
+        seq += 1
+        if n.get("k") == "sub" and key(n["b"]) == "x" and in_step(n, parents + (root,)):
+            xs.append((n["ln"], seq, const_val(n["i"])))
+    xs.sort()
+    cmp_list(rep, ft, "X[64]", "MD5 message-word index schedule", [c for _, _, c in xs], MD5_X, str)
+    # step target registers rotate a,d,c,b
+    tg = []
+    seq = 0
+    for pos, root, n, parents in ft.nodes():
+        seq += 1
+        if n.get("k") == "bin" and n["op"] == "=" and in_step(n, parents + (root,)) and core.strip_casts(n["x"]).get("k") == "ref":
+            tg.append((n["ln"], seq, core.strip_casts(n["x"])["n"]))
+    tg.sort()
+    cmp_list(rep, ft, "register-rotation", "MD5 step target registers cycle a,d,c,b", [c for _, _, c in tg],
+             ["a", "d", "c", "b"] * 16, str)
+
+
+def big_ints(fn, minval=1 << 24):
+    return ordered_ints(fn, lambda n, ps: int(n["v"]) >= minval or int(n["v"]) < -(1 << 24))
+
+
+def sha1(rep, unit, variant):
+    fi = unit.fn("sha1_init")
+    fg = unit.fn("sha1_transform_generic")
+    if fi is None or fg is None:
+        raise driver.AnalysisBroken("sha1 anchors vanished")
+    rep.functions.update(["sha1_init", "sha1_transform_generic"])
+    hash_iv(rep, fi, SHA1_IV, 32)
+    ks = [u(v, 32) for v in big_ints(fg)]
+    cmp_list(rep, fg, "K[4]", "SHA-1 round constants floor(2^30*sqrt(2,3,5,10))", [k for k in ks if k in SHA1_K or True][:4], SHA1_K)
+    fs = unit.fn("sha1_transform_sse")
+    if fs is not None:
+        rep.functions.add("sha1_transform_sse")
+        ks = [u(v, 32) for v in big_ints(fs)]
+        kk = [k for k in ks if (k >> 28) in (0x5, 0x6, 0x8, 0xc) and k not in (0x80000000,)]
+        # the four K constants must all be present, each exactly once, in round order
+        cmp_list(rep, fs, "K[4]-sse", "SHA-1 round constants in the SSE transform", kk[:4], SHA1_K)
+    fsimd = unit.fn("sha1_transform_simd")
+    if fsimd is not None:
+        rep.functions.add("sha1_transform_simd")
+        imm = []
+        seq = 0
+        for pos, root, n, parents in fsimd.nodes():
+            seq += 1
+            if n.get("k") == "call" and n.get("fn") in ("__builtin_ia32_sha1rnds4",):
+                imm.append((n["ln"], seq, const_val(n["args"][2])))
+        imm.sort()
+        cmp_list(rep, fsimd, "sha1rnds4-imm", "SHA-NI round-function selectors: 5 x each of 0,1,2,3 in order",
+                 [c for _, _, c in imm], [0] * 5 + [1] * 5 + [2] * 5 + [3] * 5, str)
+    # rotation amounts 5 and 30 in the generic transform
+    rots = set()
+    for pos, root, n, parents in fg.nodes():
+        if n.get("k") == "bin" and n["op"] == "<<" and const_val(n["y"]) is not None:
+            rots.add(const_val(n["y"]))
+    if {1, 5, 30} <= rots:
+        rep.proved("R-TBL", fg, "rotations", "SHA-1 rotation amounts 1, 5, 30 present", str(sorted(rots)))
+    else:
+        rep.violated("R-TBL", fg, "rotations", "SHA-1 rotation amounts 1, 5, 30 present", str(sorted(rots)))
+
+
+def gval(unit, name, fn=None):
+    for g in unit.global_list:
+        if g["n"] == name and (fn is None or g.get("fn") == fn):
+            return core.global_value(unit, g)
+    return None
+
+
+def sha2(rep, unit, variant):
+    fi = unit.fn("sha2_init")
+    rep.functions.add("sha2_init")
+    for nm, want, bits in (("SHA2_224_H0", SHA224_H0, 32), ("SHA2_256_H0", SHA256_H0, 32),
+                           ("SHA2_384_H0", SHA384_H0, 64), ("SHA2_512_H0", SHA512_H0, 64)):
+        v = gval(unit, nm)
+        if v is None:
+            raise driver.AnalysisBroken("table %s vanished" % nm)
+        cmp_list(rep, fi, nm, "%s = fractional parts of square roots of primes" % nm, [u(x, bits) for x in v], want)
+    for fname, want, bits in (("sha2_transform_block64_generic", SHA256_K, 32), ("sha2_transform_block128_generic", SHA512_K, 64)):
+        f = unit.fn(fname)
+        v = gval(unit, "K", fname)
+        if f is None or v is None:
+            raise driver.AnalysisBroken("K table of %s vanished" % fname)
+        rep.functions.add(fname)
+        cmp_list(rep, f, "K[%d]" % len(want), "SHA-2 round constants = fractional parts of cube roots of primes",
+                 [u(x, bits) for x in v], want)
+        # Sigma/sigma rotation triples: collect constant right-shift amounts used in the function
+        want_sh = {2, 13, 22, 6, 11, 25, 7, 18, 3, 17, 19, 10} if bits == 32 else {28, 34, 39, 14, 18, 41, 1, 8, 7, 19, 61, 6}
+        got = set()
+        for pos, root, n, parents in f.nodes():
+            if n.get("k") == "bin" and n["op"] == ">>" and const_val(n["y"]) is not None:
+                got.add(const_val(n["y"]))
+        if got == want_sh:
+            rep.proved("R-TBL", f, "sigma-rotations", "the twelve Sigma/sigma shift amounts equal FIPS 180-4", str(sorted(got)))
+        else:
+            rep.violated("R-TBL", f, "sigma-rotations", "the twelve Sigma/sigma shift amounts equal FIPS 180-4",
+                         "got %s want %s" % (sorted(got), sorted(want_sh)))
+    fs = unit.fn("sha2_transform_block64_simd")
+    if fs is not None:
+        rep.functions.add(fs.name)
+        words = []
+        seq = 0
+        calls = []
+        for pos, root, n, parents in fs.nodes():
+            seq += 1
+            if n.get("k") == "call" and n.get("fn") == "_mm_set_epi64x":
+                hi, lo = const_val(n["args"][0]), const_val(n["args"][1])
+                calls.append((n["ln"], seq, hi, lo))
+        calls.sort()
+        for ln, _, hi, lo in calls:
+            if hi is None or lo is None:
+                continue
+            hi, lo = u(hi, 64), u(lo, 64)
+            words.append([lo & M32, lo >> 32, hi & M32, hi >> 32])
+        # first call is the byte-shuffle MASK, the remaining 16 are K[0..63]
+        flat = [w for ws in words[1:] for w in ws]
+        cmp_list(rep, fs, "K[64]-simd", "SHA-256 round constants embedded in the SHA-NI transform, in round order", flat, SHA256_K)
+
+
+def streebog(rep, unit_big, unit_small):
+    Ax = gval(unit_big, "gost3411_2012_Ax")
+    C = gval(unit_big, "gost3411_2012_C")
+    sbox = gval(unit_small, "gost3411_2012_sbox")
+    A = gval(unit_small, "gost3411_2012_A")
+    tau = gval(unit_small, "gost3411_2012_tau")
+    C2 = gval(unit_small, "gost3411_2012_C")
+    fn = unit_big.fn("gost3411_2012_SLP")
+    if None in (Ax, C, sbox, A, tau, C2) or fn is None:
+        raise driver.AnalysisBroken("streebog tables vanished")
+    rep.functions.add("gost3411_2012_SLP")
+    Ax = [[u(x, 64) for x in row] for row in Ax]
+    A = [u(x, 64) for x in A]
+    # permutation properties
+    (rep.proved if sorted(sbox) == list(range(256)) else rep.violated)(
+        "R-TBL", fn, "sbox-permutation", "Streebog S-box is a permutation of 0..255")
+    (rep.proved if [int(x) for x in tau] == [((i << 3) | (i >> 3)) & 0x3f for i in range(64)] else rep.violated)(
+        "R-TBL", fn, "tau-transpose", "tau table equals the 8x8 byte transposition (and the TAU macro formula)")
+    # Ax[w][x] = XOR_{b in bits(sbox[x])} A[63 - 8w - b]   (derived from the two SLP bodies)
+    bad = []
+    for w in range(8):
+        for x in range(256):
+            s = int(sbox[x])
+            v = 0
+            for b in range(8):
+                if s >> b & 1:
+                    v ^= A[63 - 8 * w - b]
+            if v != Ax[w][x]:
+                bad.append((w, x))
+    if not bad:
+        rep.proved("R-TBL", fn, "Ax=L.S", "expanded table Ax[w][x] equals the L∘S contribution computed from sbox and A "
+                   "(2048 entries)", "all equal")
+    else:
+        rep.violated("R-TBL", fn, "Ax=L.S", "expanded table Ax[w][x] equals the L∘S contribution computed from sbox and A",
+                     "%d mismatches, first at Ax[%d][%d]" % (len(bad), bad[0][0], bad[0][1]))
+    (rep.proved if C == C2 else rep.violated)("R-TBL", fn, "C-both-builds", "iteration constants C agree between the two table builds")
+    rep.note('Streebog iteration constants C are only cross-checked between the two table builds; no offline-derivable definition')
+
+
+CPUID_WANT = {
+    # variant -> {flag field: (leaf, reg, bit)}
+    "nosimd": {},
+    "default": {"use_sse": (1, "edx", 26)},
+    "ssse3": {"use_sse": (1, "ecx", 9)},
+    "sse41": {"use_sse": (1, "ecx", 19)},
+    "avx": {"use_sse": (1, "ecx", 19), "use_avx": (1, "ecx", 28)},
+    "avx2": {"use_sse": (1, "ecx", 19), "use_avx": (7, "ebx", 5)},
+    "sha": {"use_sse": (1, "ecx", 19), "use_simd": (7, "ebx", 29)},
+    "smalltbl": {}, "smalltbl_tau": {},
+}
+
+
+def cpuid(rep, unit, init_name, variant, fields):
+    fn = unit.fn(init_name)
+    rep.functions.add(init_name)
+    got = {}
+    leaf = None
+    # straight-line search in source order
+    items = []
+    seq = 0
+    for pos, root, n, parents in fn.nodes():
+        seq += 1
+        if n.get("k") == "call" and n.get("fn") == "__get_cpuid_count":
+            items.append((n["ln"], seq, "leaf", const_val(n["args"][0])))
+        if n.get("k") == "bin" and n["op"] in ("=", "|=") and core.strip_casts(n["x"]).get("k") == "mem" and \
+                core.strip_casts(n["x"])["f"] in ("use_sse", "use_avx", "use_simd"):
+            rhs = core.strip_casts(n["y"])
+            if rhs.get("k") == "bin" and rhs["op"] == "&":
+                reg = None
+                bit = None
+                for side in (rhs["x"], rhs["y"]):
+                    s = core.strip_casts(side)
+                    if s.get("k") == "ref":
+                        reg = s["n"]
+                    elif const_val(s) is not None:
+                        c = const_val(s)
+                        bit = c.bit_length() - 1 if c > 0 and c & (c - 1) == 0 else None
+                items.append((n["ln"], seq, core.strip_casts(n["x"])["f"], (reg, bit)))
+    items.sort()
+    for ln, _, kind, val in items:
+        if kind == "leaf":
+            leaf = val
+        else:
+            got[kind] = (leaf, val[0], val[1])
+    want = {k: v for k, v in CPUID_WANT[variant].items() if k in fields}
+    desc = "CPUID (leaf, register, bit) tested for each enabled feature equals the architectural assignment"
+    if got == want:
+        rep.proved("R-TBL", fn, "cpuid:" + variant, desc, str(got))
+    else:
+        rep.violated("R-TBL", fn, "cpuid:" + variant, desc, "got %s want %s" % (got, want))
+
+
 def run(rep, specs, us, tier):
-    pass
+    from props import common
+    n = 0
+    for (h, lab, s) in specs:
+        u_ = us[s.label]
+        if h == "md5":
+            md5(rep, u_)
+        elif h == "sha1":
+            sha1(rep, u_, lab)
+            cpuid(rep, u_, "sha1_init", lab, ("use_sse", "use_simd"))
+        elif h == "sha2":
+            sha2(rep, u_, lab)
+            cpuid(rep, u_, "sha2_init", lab, ("use_simd",))
+        elif h == "gost3411":
+            cpuid(rep, u_, "gost3411_2012_init", lab, ("use_sse", "use_avx"))
+        n += 1
+    # Streebog table agreement needs both table builds
+    sm = common.hdr_unit("gost3411:smalltbl", "crypto/hash/gost3411-2012.h", ("!__SSE2__", "GOST3411_2012_USE_SMALL_TABLES"))
+    bg = common.hdr_unit("gost3411:nosimd", "crypto/hash/gost3411-2012.h", ("!__SSE2__",))
+    two = driver.load_units([sm, bg])
+    streebog(rep, two["gost3411:nosimd"], two["gost3411:smalltbl"])
+    rep.floor("hash units with table checks", n, 8)
